@@ -25,7 +25,8 @@ RULE = ("correlation rules over all 8 types x 6 operators x counts {0,1,large,ne
         "missing aggregation/condition templates, methods, precedence permutations, parenthesize) x field-mapping pipelines "
         "(1:1, 1:N, prefix, suffix, scoped by include/exclude, 1-3 stages, post-processing item); distinct = distinct "
         "(rule, refs, cfg, pipeline); non-trivial = a correlation query was emitted and compared"
-        "; field-mapping stages optionally carry a log source rule condition that holds for every rule")
+        "; field-mapping stages optionally carry a log source rule condition that holds for every rule"
+        "; a correlation rule over a failing referenced rule (stream shared with C08)")
 ASSUMPTIONS = [
     "the referenced rules' own conversion is a parameter (Env): obtained by converting each referenced rule alone with the same backend and pipeline (C01/C12 cover it)",
     "the effect of one field-mapping item on a name is computed by the harness from its documented mapping / scope and sent as a finite table (C12/C13 cover it)",
